@@ -72,6 +72,35 @@ def run_model(requests, timeout=600):
     Large batches are sharded over several model processes."""
     if not requests:
         return []
+    replies = _run_model_sharded(requests, timeout)
+    _vm_spot_check(requests, replies)
+    return replies
+
+
+VM_SPOT = {'calls': 0, 'requests': 0}
+EXTRA_EVIDENCE = {}
+
+
+def _vm_spot_check(requests, replies):
+    """Extraction and the OCaml driver must not be a single point of trust: for the first few batches of every check process
+    one or two requests are re-evaluated inside coqc (`Eval vm_compute in dispatch ...`) and compared with the binary's answer."""
+    limit = 3 if CURRENT_TIER[0] == 'quick' else 12
+    if VM_SPOT['calls'] >= limit:
+        return
+    small = [i for i, r in enumerate(requests) if len(sx(r)) < 400000 and len(str(replies[i])) < 400000]
+    if not small:
+        return
+    VM_SPOT['calls'] += 1
+    idx = [small[0]] + ([small[len(small) // 2]] if len(small) > 2 else [])
+    bad = run_model_vm([requests[i] for i in idx], [replies[i] for i in idx], f'spot{os.getpid()}_{VM_SPOT["calls"]}')
+    VM_SPOT['requests'] += len(idx)
+    EXTRA_EVIDENCE['requests_rechecked_inside_coqc_by_vm_compute'] = VM_SPOT['requests']
+    if bad:
+        raise RuntimeError(f'the extracted model and vm_compute disagree on request(s) {[idx[b] for b in bad]} (op {requests[idx[bad[0]]][0]}): '
+                           'extraction or harness/ml/driver.ml is broken')
+
+
+def _run_model_sharded(requests, timeout=600):
     if len(requests) >= 64:
         from concurrent.futures import ThreadPoolExecutor
         n = min(12, len(requests) // 16)
@@ -327,6 +356,7 @@ class Report:
             'notes': self.notes,
         }
         cov.update(self.extra)
+        cov.update(EXTRA_EVIDENCE)
         ev = {'property_id': self.pid, 'tier': self.tier, 'seed': self.seed, 'level': level,
               'coverage': cov, 'assumptions': assumptions,
               'wall_s': round(time.time() - self.t0, 2), 'violations': len(self.violations)}
